@@ -18,7 +18,7 @@ mod c04;
 mod c05;
 mod c06;
 mod c07;
-// mod c08;
+mod c08;
 mod c09;
 mod c10;
 mod c12;
@@ -26,7 +26,7 @@ mod c13;
 mod c14;
 mod c15;
 mod c16;
-// mod c17;
+mod c17;
 mod c18;
 mod c19;
 mod c20;
@@ -120,7 +120,7 @@ fn main() {
         "C05" => c05::run(&ctx),
         "C06" => c06::run(&ctx),
         "C07" => c07::run(&ctx),
-        // "C08" => c08::run(&ctx),
+        "C08" => c08::run(&ctx),
         "C09" => c09::run(&ctx),
         "C10" => c10::run(&ctx, false),
         "C11" => c10::run(&ctx, true),
@@ -129,7 +129,7 @@ fn main() {
         "C14" => c14::run(&ctx),
         "C15" => c15::run(&ctx),
         "C16" => c16::run(&ctx),
-        // "C17" => c17::run(&ctx),
+        "C17" => c17::run(&ctx),
         "C18" => c18::run(&ctx),
         "C19" => c19::run(&ctx),
         "C20" => c20::run(&ctx),
